@@ -25,16 +25,25 @@ def trimSuffix (suf s : String) : String :=
 structure EnumRead where
   pfx : String
   options : List (String × Int)
+  /-- `commentDescription(option)` per value, by the value's INDEX in the descriptor -/
+  descs : List String
   deriving Repr, DecidableEq
 
-def buildEnum (values : List (String × Int)) : Outcome EnumRead :=
+/-- the leading comment at source path `[…, 2, i]` -/
+def commentAt (cs : List (Nat × String)) (i : Nat) : String :=
+  match cs.find? (fun c => c.1 == i) with
+  | some c => c.2
+  | none => ""
+
+def buildEnum (values : List (String × Int)) (comments : List (Nat × String)) : Outcome EnumRead :=
   match values with
   | [] => .panic "index out of range: enum without values"
   | (first, _) :: _ =>
     if !hasSuffix "UNSPECIFIED" first then .err "enum does not have an unspecified value"
     else
       let pre := trimSuffix "UNSPECIFIED" first
-      .ok { pfx := pre, options := values.map fun (n, k) => (trimPrefix pre n, k) }
+      .ok { pfx := pre, options := values.map fun (n, k) => (trimPrefix pre n, k),
+            descs := (List.range values.length).map (commentAt comments) }
 
 def optionByNumber (opts : List (String × Int)) (n : Int) : Option String :=
   match opts.find? (fun o => o.2 == n) with
@@ -65,8 +74,9 @@ def namesOfNotIn (opts : List (String × Int)) : List Int → Outcome (List Stri
       | .panic w => .panic w
 
 /-- the canonical declaration the reader reconstructs for an enum -/
-def readDecl (name : String) (r : EnumRead) : EnumDecl :=
-  { name := name, declPrefix := some r.pfx, defaultPrefix := r.pfx, options := r.options.map (·.1) }
+def readDecl (name desc : String) (r : EnumRead) : EnumDecl :=
+  { name := name, declPrefix := some r.pfx, defaultPrefix := r.pfx, options := r.options.map (·.1),
+    description := desc, descs := r.descs }
 
 def wellKnownStringPattern (p : String) : Option String :=
   if p = "^\\d{4}-\\d{2}-\\d{2}$" then some "date"
@@ -210,7 +220,7 @@ def buildSchema (kind : ProtoKind) (ext : Exts) (psm : Option PsmKey) : Outcome 
       | _ => {}
     .ok (.bytes (some rules))
   | .enum decl =>
-    match buildEnum decl.values with
+    match buildEnum decl.values decl.comments with
     | .err t => .err t
     | .panic w => .panic w
     | .ok er =>
@@ -224,8 +234,8 @@ def buildSchema (kind : ProtoKind) (ext : Exts) (psm : Option PsmKey) : Outcome 
            match namesOfNotIn er.options notIn with
            | .err t => .err t
            | .panic w => .panic w
-           | .ok b => .ok (.enum (readDecl decl.name er) (some { inn := a, notIn := b }) lr))
-      | _ => .ok (.enum (readDecl decl.name er) none lr)
+           | .ok b => .ok (.enum (readDecl decl.name decl.description er) (some { inn := a, notIn := b }) lr))
+      | _ => .ok (.enum (readDecl decl.name decl.description er) none lr)
   | .message m =>
     let flatten : Bool := match ext.j5 with | some (.object f) => f | _ => false
     match m with
